@@ -131,6 +131,9 @@ func (p *PolicySet) UnmarshalJSON(b []byte) error {
 		policies: make(PolicyMap, len(jsonPolicySet.StaticPolicies)),
 	}
 	for k, v := range jsonPolicySet.StaticPolicies {
+		if v == nil {
+			return fmt.Errorf("static policy %q is null", k)
+		}
 		p.policies[PolicyID(k)] = newPolicy((*ast.Policy)(v))
 	}
 	return nil
